@@ -1,6 +1,7 @@
 package govc
 
 import (
+	"fmt"
 	"go/token"
 	"go/types"
 	"math/big"
@@ -192,6 +193,46 @@ func initIntrinsics() {
 	t["bytes.Compare"] = &intrinsic{mods: noMods, doc: "bytes.Compare: total order on contents, 0 iff equal, antisymmetric", exec: func(vc *VC, fr *frame, st *State, c *ssa.CallCommon, args []Val, rt types.Type, pos token.Pos) Val {
 		return scalar(vc.bytesCompare(st, args[0], args[1]))
 	}}
+	t["sort.Sort"] = &intrinsic{doc: "sort.Sort on a slice-backed sort.Interface: the elements in [0,len) are permuted (set of elements and length preserved); nothing else changes",
+		mods: func(vc *VC, c *ssa.CallCommon, ms *modSet) {
+			if mi, ok := c.Args[0].(*ssa.MakeInterface); ok {
+				if sl, ok := mi.X.Type().Underlying().(*types.Slice); ok {
+					heapKeysOfStore(elemMapKey(sl.Elem()), sl.Elem(), ms.heap)
+					return
+				}
+			}
+			ms.all = true
+		},
+		exec: func(vc *VC, fr *frame, st *State, c *ssa.CallCommon, args []Val, rt types.Type, pos token.Pos) Val {
+			p := vc.P
+			mi, ok := c.Args[0].(*ssa.MakeInterface)
+			var sl *types.Slice
+			if ok {
+				sl, ok = mi.X.Type().Underlying().(*types.Slice)
+			}
+			if !ok || classify(sl.Elem()) != TKInt {
+				vc.note("sort.Sort on an unsupported container: everything havocked")
+				vc.havocAllHeap(st, "sort")
+				return Val{K: VStruct}
+			}
+			s := vc.operand(fr, st, mi.X)
+			key := elemMapKey(sl.Elem())
+			m := vc.heapGet(st, key, SArrIAI)
+			oldIn := p.Select(m, s.Arr)
+			newIn := p.Fresh("sorted", SArrII)
+			vc.qSeq++
+			i := p.Var(fmt.Sprintf("i?%d", vc.qSeq), SInt)
+			vc.qSeq++
+			j := p.Var(fmt.Sprintf("j?%d", vc.qSeq), SInt)
+			inR := func(x *Term) *Term { return p.And(p.Le(s.Off, x), p.Lt(x, p.Add(s.Off, s.Len))) }
+			// outside the range nothing changes; every new element is an old one and vice versa
+			vc.assume(st, p.Forall([]*Term{i}, p.Implies(p.Not(inR(i)), p.Eq(p.Select(newIn, i), p.Select(oldIn, i)))))
+			vc.assume(st, p.Forall([]*Term{i}, p.Implies(inR(i), p.Exists([]*Term{j}, p.And(inR(j), p.Eq(p.Select(newIn, i), p.Select(oldIn, j)))))))
+			vc.assume(st, p.Forall([]*Term{i}, p.Implies(inR(i), p.Exists([]*Term{j}, p.And(inR(j), p.Eq(p.Select(oldIn, i), p.Select(newIn, j)))))))
+			vc.heapSet(st, key, p.Ite(p.Eq(s.Len, p.Int(0)), m, p.Store(m, s.Arr, newIn)))
+			vc.written[key] = true
+			return Val{K: VStruct}
+		}}
 	intrinsicTab = t
 }
 
